@@ -37,7 +37,7 @@ PROP = 'C12'
 THEOREMS = [
     'C12_sound', 'C12_type_independent_of_values', 'C12_stmt_type_sound', 'C12_resolve_order_independent',
     'C12_subsumption', 'C12_union_type_sound', 'C12_std_sig_wf',
-    'C12_std_common_upper_bound', 'C12_std_common_symmetric', 'C12_std_common_order_independent',
+    'C12_std_common_type_upper_bound', 'C12_std_common_symmetric', 'C12_std_common_order_independent',
 ]
 REFUTED = ['C12_sound_without_clean_refuted', 'C12_common_type_symmetry_refuted']
 KF_TUPLE = 'C12-tuple-arity-subclass'
@@ -186,6 +186,7 @@ def gen_cases(tier, g: G.G, exe=None, ext='-'):
         cases += list(G.stream_funcs(g, u1[:44], u0[:7], names=poly))  # exhaustive: polymorphic functions
         cases += r.sample(list(G.stream_recursive(g)), 600)
         cases += list(G.stream_indirection(g, u1))
+        cases += list(G.stream_paths(g, u0[:6] + u1[-10:]))
         cases += r.sample(list(G.stream_casts(g, u1[:34])), 600)
         cases += r.sample(list(G.stream_userfuncs(g, u2)), 500)
         nrand, nmal = 2000, 800
@@ -203,6 +204,7 @@ def gen_cases(tier, g: G.G, exe=None, ext='-'):
         cases += list(G.stream_funcs(g, u2, u1[:30]))
         cases += list(G.stream_recursive(g))
         cases += list(G.stream_indirection(g, u2))
+        cases += list(G.stream_paths(g, u2))
         cases += list(G.stream_casts(g, u2))
         cases += list(G.stream_userfuncs(g, u2))
         nrand, nmal = 60000, 15000
@@ -373,11 +375,13 @@ def coq_expr(e):
         return f'(EIndex {coq_expr(e[1])} {coq_expr(e[2])})'
     if k == 'objset':
         return f'(EObj {e[1]})'
+    if k == 'ptr':
+        return f'(EPtr {coq_expr(e[1])} {e[2]})'
     raise ValueError(e)
 
 
 def coq_ext(ext):
-    scs, obs, cs, fs = _sx(ext)[0]
+    scs, obs, cs, fs, ptrs = _sx(ext)[0]
     b = lambda x: 'true' if x == '1' else 'false'     # noqa: E731
     S = '[' + '; '.join(f'mk_scalar {i} {b(ab)} {b(en)} [{"; ".join(anc)}]' for i, ab, en, anc in scs) + ']'
     O = '[' + '; '.join(f'mk_objtype {i} [{"; ".join(anc)}]' for i, anc in obs) + ']'
@@ -388,7 +392,8 @@ def coq_ext(ext):
         P = '[' + '; '.join(f'mk_param {pn} {PK[pk]} {TM[pm]} {coq_ty(pt)} {b(pd)}' for pn, pk, pm, pt, pd in ps) + ']'
         F.append(f'mk_callable {100001 + k} {nm} {b(isop)} {b(ab)} {b(rc)} '
                  f'{"None" if dv == "-" else "(Some " + dv + ")"} {P} {TM[rm]} {coq_ty(rt)}')
-    return f'(sig_extend std_sig {S} {O} [] [{"; ".join(F)}])'
+    P = '[' + '; '.join(f'({o}, {pn}, {coq_ty(t)})' for o, pn, t in ptrs) + ']'
+    return f'(sig_extend std_sig {S} {O} [] [{"; ".join(F)}])', P
 
 
 COQ_REQ = ('From Coq Require Import List NArith ZArith Bool. Import ListNotations.\n'
@@ -401,7 +406,7 @@ COQ_REQ = ('From Coq Require Import List NArith ZArith Bool. Import ListNotation
 def coq_check_expr(ext_coq, expr_term, model_res):
     """a Coq boolean that is true iff vm_compute inside Coq agrees with the extracted binary"""
     e = coq_expr(_sx(expr_term)[0])
-    call = f'stmt_type_clean USIG s_int64 {e}'
+    call = f'stmt_type_clean USIG s_int64 UPTRS {e}'
     if model_res.startswith('OK '):
         body = model_res[3:]
         clean = 'true'
@@ -430,7 +435,7 @@ def subexprs(t):
         kids = t[2:]
     elif k == 'call':
         kids = list(t[2]) + [x for _, x in t[3]]
-    elif k == 'tidx':
+    elif k in ('tidx', 'ptr'):
         kids = [t[1]]
     elif k == 'idx':
         kids = [t[1], t[2]]
@@ -672,7 +677,8 @@ def run(tier):
         pool = [i for i in range(len(lines)) if not model[i].startswith('BAD') and model[i] != 'ERR Unsupported'
                 and len(lines[i]) < len(ext) + 400]
         idx = sorted(r.sample(pool, min(120 if not thorough else 600, len(pool))))
-        req = COQ_REQ + f'Definition USIG := {coq_ext(ext)}.\n'
+        usig, uptrs = coq_ext(ext)
+        req = COQ_REQ + f'Definition USIG := {usig}.\nDefinition UPTRS : list (N * N * ty) := {uptrs}.\n'
         try:
             outs = lib.coq_eval('C12', req, [coq_check_expr(None, cases[i][1], model[i]) for i in idx])
             n_coq = len(outs)
